@@ -362,3 +362,12 @@ def run_case(case):
         executions=execs,
         violations=viol[:6],
     )
+
+
+def sanity(summary, tier):
+    probs = []
+    if summary["extra"].get("thr_schedules", 0) < 100:
+        probs.append("concurrent failing-destination harness hardly explored")
+    if summary["states"] < 1000:
+        probs.append("too few fan-out states")
+    return probs
